@@ -120,7 +120,9 @@ def histories():
           ('new_client', A, [v('lA')]), ('get_client', A, []), ('get_version_by_parent', A, [v('q1')]), ('get_snapshot_data', A, [v('g1')])]
     h4 = [('new_client', A, [v('lA')]), ('add_version', A, [v('v1'), v('p1'), seg('s1')]), ('add_version', A, [v('v3'), v('p3'), seg('s3')]),
           ('set_snapshot', A, [v('sv1'), ts('t1'), cnt('c1'), seg('d1')]), ('set_snapshot', A, [v('sv3'), ts('t3'), cnt('c3'), seg('d3')]),
-          ('get_snapshot_data', A, [v('g1')]), ('get_client', A, [])]
+          ('get_snapshot_data', A, [v('g1')]), ('get_client', A, []),
+          # (history survives snapshots: every earlier version is still found)
+          ('get_version_by_parent', A, [v('q1')]), ('get_version', A, [v('q2')])]
     # a write whose transaction is dropped without commit must leave no trace (the `!` marks it)
     h5 = [('new_client', A, [v('lA')]), ('add_version', A, [v('v1'), v('p1'), seg('s1')]), ('!add_version', A, [v('v3'), v('p3'), seg('s3')]),
           ('!set_snapshot', A, [v('sv1'), ts('t1'), cnt('c1'), seg('d1')]), ('get_version_by_parent', A, [v('p3')]), ('get_version', A, [v('v3')]), ('get_client', A, [])]
